@@ -380,5 +380,14 @@ Section Run.
     run_on (filter_by_set canon (scanned sc) set) sc.
 End Run.
 
+(* check_scan.rs with --files L: no scan; the listed files that exist are the file list and there are
+   no structure results.  --diff / --staged restrict the list exactly as they restrict a scanned
+   list (fix D105; before it the set was ignored, see listed_run_v0 in Git/BeforeFixes.v).
+   [set] = None: neither flag given. *)
+Definition listed_run (R : Type) (eval : path -> option R) (canon : path -> option path)
+           (set : option (list path)) (listed : list path) : list (path * R) * unit :=
+  run_on R unit (list path) eval (fun _ => tt)
+         (match set with Some s => filter_by_set canon listed s | None => listed end) listed.
+
 (* canonicalisation oracle given as a table (used by the extracted driver) *)
 Definition canon_of (m : list (path * path)) (p : path) : option path := assoc_path p m.
